@@ -68,6 +68,11 @@ F_GET_RESULT = 'd:merged-get_result-raises-KeyError:two-aggregating-stages'
 
 def gen_spec(rng, delays):
   n = rng.choice([0, 1, 2, 3, 5, 9, 17, 26, 40])
+  big = (not delays) and rng.random() < 0.12
+  if big:
+    # Shards longer than the 64-row random-access read-ahead window (and not a
+    # multiple of it) exercise the windowed reads of sharded sources.
+    n = rng.choice([150, 200, 333, 470])
   ops = []
   for _ in range(rng.randint(1, 4)):
     k = rng.choice(['affine', 'affine', 'square', 'square', 'filter', 'slow'])
@@ -77,7 +82,7 @@ def gen_spec(rng, delays):
       ops.append(['slow', {'delay': rng.choice([0.0, 0.0005, 0.002]) if delays else 0.0}])
     else:
       ops.append([k])
-  spec = {'n': n, 'rec': rng.randint(1, 5), 'ops': ops,
+  spec = {'n': n, 'rec': 1 if big else rng.randint(1, 5), 'ops': ops,
           'agg': rng.choice(['sum', 'collect', 'sum', None])}
   if rng.random() < 0.25:
     spec['mid_agg'] = {'after': rng.randint(1, len(ops)),
@@ -124,7 +129,7 @@ def plan(tier, seed):
              'e1': {'n_pipe': 500}}
   else:
     kinds = ['sched'] * 32 + ['native'] * 16 + ['e1'] * 16
-    sizes = {'sched': {'n_pipe': 60, 'n_nt': 4, 'n_sched': 40},
+    sizes = {'sched': {'n_pipe': 48, 'n_nt': 4, 'n_sched': 40},
              'native': {'n_pipe': 260, 'n_nt': 4, 'reps': 3, 'n_e': 8},
              'e1': {'n_pipe': 5000}}
   out = []
